@@ -59,6 +59,12 @@ type wVA struct {
 type wNode struct {
 	ID                                   int64
 	Managed, Fin, Del, Taint, Lbl, Ready bool
+	// Flv: shapes behind the projected booleans (a disrupted-key taint with another effect when Taint is false, the
+	// load-balancer label with another value when Lbl is false, Ready Unknown / no Ready condition when Ready is false).
+	Flv uint32
+	// NoPid: spec.providerID is empty. Only generated in worlds where that is indistinguishable for the model (no
+	// recorded claim, no duplicate, no instance): GetNodeClaims must return nothing and the provider NotFound.
+	NoPid bool
 }
 
 // condition encodings: Drained "" | "U" (+since) | "T"; Vol "" | "U" | "T" | "F"; Annot "" | "bad" | "at"
@@ -376,12 +382,19 @@ func mkPod(p *wPod) *corev1.Pod {
 		}
 		o.Spec.Volumes = append(o.Spec.Volumes, vol)
 	}
-	if (f>>8)&1 == 1 { // volumes that resolve to no PV: an emptyDir and a claim that does not exist
-		o.Spec.Volumes = append(o.Spec.Volumes, corev1.Volume{Name: "scratch", VolumeSource: corev1.VolumeSource{EmptyDir: &corev1.EmptyDirVolumeSource{}}},
-			corev1.Volume{Name: "lost", VolumeSource: corev1.VolumeSource{PersistentVolumeClaim: &corev1.PersistentVolumeClaimVolumeSource{ClaimName: "no-such-claim"}}})
+	if (f>>8)&1 == 1 { // a volume that is no claim at all
+		o.Spec.Volumes = append(o.Spec.Volumes, corev1.Volume{Name: "scratch", VolumeSource: corev1.VolumeSource{EmptyDir: &corev1.EmptyDirVolumeSource{}}})
+	}
+	if lostClaim(p) { // a claim that does not exist (the Get answers NotFound by itself)
+		o.Spec.Volumes = append(o.Spec.Volumes, corev1.Volume{Name: "lost", VolumeSource: corev1.VolumeSource{PersistentVolumeClaim: &corev1.PersistentVolumeClaimVolumeSource{ClaimName: "no-such-claim"}}})
 	}
 	return o
 }
+
+// lostClaim: the pod mounts a PersistentVolumeClaim that does not exist. The model's pod lists only the PVs of
+// existing claims, so the extra Get is visible to it only through an injected SGetPVC fault, which the generator
+// therefore does not plan in such worlds.
+func lostClaim(p *wPod) bool { return (p.Flv>>9)&3 == 3 }
 
 func mkVA(v *wVA) *storagev1.VolumeAttachment {
 	o := &storagev1.VolumeAttachment{ObjectMeta: metav1.ObjectMeta{Name: vaName(v.ID)},
